@@ -72,6 +72,11 @@ def build_exec(pid, ex, san=None, fuzz=False):
     if fuzz:
         san = "asan-fuzz"
     flags = base_cflags(san) + ex.get("cflags", [])
+    eflags = flags
+    if ex.get("fault_malloc"):
+        # allocation fault injection: the repository sources and the harness (which holds the inline functions of the
+        # repository headers) allocate through engine/faultmalloc.c; the engine files keep the C library's functions
+        flags = flags + ["-include", "faultmalloc.h"]
     tag = hashlib.sha1((" ".join(flags) + REPO).encode()).hexdigest()[:10]
     objdir = os.path.join(BUILD, "obj", tag)
     jobs = []
@@ -83,10 +88,11 @@ def build_exec(pid, ex, san=None, fuzz=False):
         obj = os.path.join(objdir, "repo", rel[:-2] + ".o")
         jobs.append((src, obj, flags))
         objs.append(obj)
-    for rel in [ex["harness"]] + ex.get("engine", []) + ["engine/vp_util.c", "engine/verif_rt.c"]:
+    for rel in [ex["harness"]] + ex.get("engine", []) + ["engine/vp_util.c", "engine/verif_rt.c"] + \
+            (["engine/faultmalloc.c"] if ex.get("fault_malloc") else []):
         src = os.path.join(VERIF, rel)
         obj = os.path.join(objdir, "verif", rel[:-2] + ".o")
-        jobs.append((src, obj, flags))
+        jobs.append((src, obj, flags if rel == ex["harness"] else eflags))
         objs.append(obj)
     with ThreadPoolExecutor(NCPU) as tp:
         errs = [e for e in tp.map(compile_one, jobs) if e]
